@@ -531,6 +531,28 @@ class Exec:
         if k == "closure":
             st.env[s["n"]] = Obj(s["t"], [Fn(s["fn"]), self.ev(s["ctx"], st)])
             return None
+        if k == "enum":
+            # HIR: an abstract sum value (tag + payload); its representation is chosen later by the compiler
+            st.env[s["n"]] = Obj("#enum", [Int(BV(s["tag"]))] + [self.ev(e, st) for e in s["es"]])
+            return None
+        if k == "cdes":
+            # HIR ConditionalDestructure: `if tagof(e) == tag { bind payload; s1 } else { s2 }`
+            v = self.ev(s["e"], st)
+            if not (isinstance(v, Obj) and v.ty == "#enum"):
+                raise Budget("destructuring of a sum value that was not built in this execution")
+            hit = z3.is_true(z3.simplify(v.fields[0].t == BV(s["tag"])))
+            if hit:
+                for i, b in enumerate(s["b"]):
+                    if b is not None:
+                        if 1 + i >= len(v.fields):
+                            raise Unsupported("variant payload arity")
+                        st.env[b["n"]] = v.fields[1 + i]
+                st.stack.append(("fa", s["fa"], 1))
+                st.stack.append(("seq", s["s1"], 0))
+            else:
+                st.stack.append(("fa", s["fa"], 2))
+                st.stack.append(("seq", s["s2"], 0))
+            return None
         if k == "if":
             ct = self.as_int(self.ev(s["c"], st), "if")
             self.assume_bool(ct, st)
@@ -682,6 +704,8 @@ class Exec:
         if op in ("EQ", "NE") and not (isinstance(a, (Int, Poison)) and isinstance(b, (Int, Poison))):
             is_str = any(isinstance(v, Str) or (isinstance(v, Sym) and v.ty == "_Str") for v in (a, b)) or \
                 any(isinstance(x.get("t"), dict) and x["t"].get("id") == "_Str" for x in (s["e1"], s["e2"]))
+            if isinstance(a, (I31, Obj, Fn)) or isinstance(b, (I31, Obj, Fn)):
+                is_str = False      # e.g. an unboxed Option<Str> value compared with the i31 of `None`
             e = self.str_eq(a, b) if is_str else self.ref_eq(a, b)
             st.env[n] = Int(z3.If(e if op == "EQ" else z3.Not(e), BV(1), BV(0)))
             return None
@@ -800,6 +824,11 @@ class Exec:
 
 def val_eq(a, b, ex):
     """z3 Bool: the two values are observably the same"""
+    if getattr(ex, "loose_refs", False) and not (isinstance(a, (Int, Str)) and isinstance(b, (Int, Str))):
+        # comparing an IR with abstract sum values against one with chosen representations: only integers and
+        # strings are compared, references are not
+        if not (isinstance(a, I31) and isinstance(b, I31)):
+            return z3.BoolVal(True)
     if isinstance(a, Int) and isinstance(b, Int):
         return a.t == b.t
     if isinstance(a, I31) and isinstance(b, I31):
@@ -876,7 +905,7 @@ def model_args(model, f, world):
     return {"arguments": out, "object_facts": facts, "object_fields": fields}
 
 
-def compare_function(name, progA, progB, bounds, enter=False, timeout_s=20, ignore_type_names=False):
+def compare_function(name, progA, progB, bounds, enter=False, timeout_s=20, ignore_type_names=False, loose_refs=False):
     """-> dict(status=equal|different|skipped, ...).  progA is the reference."""
     fa = progA.fns[name]
     fb = progB.fns[name]
@@ -892,6 +921,7 @@ def compare_function(name, progA, progB, bounds, enter=False, timeout_s=20, igno
     exA = Exec(progA, world, "ref", enter, bounds, solver)
     exB = Exec(progB, world, "new", enter, bounds, solver)
     exA.ignore_type_names = exB.ignore_type_names = ignore_type_names
+    exA.loose_refs = exB.loose_refs = loose_refs
     args = mk_args(fa, world)
     t0 = time.time()
     tb = (bounds or {}).get("seconds")
